@@ -505,6 +505,19 @@ def gen_compatible_pair(rng: random.Random, cfg1: GenCfg, cfg2: GenCfg | None = 
     return circuits, meta
 
 
+def gen_twin_pair(rng: random.Random, cfg: GenCfg, *, n: int = 2):
+    """n circuits with the *same architecture* (layer types, unit counts, parameterisations) and
+    independent parameter tensors: the generator is replayed from one seed.  This is the everyday
+    product "two models of one architecture"; every layer pair has equal shapes, so a rule that reads
+    the wrong operand's tensor stays silent instead of failing on a shape."""
+    seed = rng.getrandbits(64)
+    out, meta = [], None
+    for _ in range(n):
+        sc, meta = gen_circuit(random.Random(seed), cfg)
+        out.append(sc)
+    return out, meta
+
+
 # ------------------------------------------------------------------------------------------
 # inputs
 # ------------------------------------------------------------------------------------------
